@@ -99,16 +99,7 @@ func runCLI(c *core.Ctx, r *cliReq) {
 		hooks[i] = "-"
 	}
 	if r.hasF {
-		var b strings.Builder
-		for i, s := range r.fnames {
-			b.WriteString(s)
-			if i%3 == 2 || i == len(r.fnames)-1 {
-				b.WriteByte('\n')
-			} else {
-				b.WriteByte(',')
-			}
-		}
-		argv = append(argv, "-f", c.TmpFile(b.String()))
+		argv = append(argv, "-f", c.TmpFile(tipFileText(r.fnames)))
 	}
 	if r.hasC {
 		ct, err := core.Build(r.comp)
@@ -419,6 +410,13 @@ func tipFileCase(c *core.Ctx) {
 	pool := []string{"a", "b", "c", "d", "e", "f", "g", "h", "i"}
 	junk := []string{"zz", " a", "b ", "", "A", "ab"}
 	var b strings.Builder
+	if g.Chance(0.08) {
+		// a first line of more than 64 KiB (names that are no tips), ending with a tip name
+		for i := 0; i < 9000; i++ {
+			fmt.Fprintf(&b, "zz%05d,", i)
+		}
+		b.WriteString(pool[g.Intn(len(pool))] + "\n")
+	}
 	n := g.Intn(6)
 	picked := 0
 	for i := 0; i < n; i++ {
@@ -470,4 +468,81 @@ func doTipFile(c *core.Ctx, content string, pool []string) {
 		}
 	}
 	c.Emit("C06.tipfile", core.Escape(content), core.StrList(pool), "ok", core.StrList(removed))
+}
+
+// tipFileText lays the names out in a tip file.  The layout is chosen by marker names (absent from
+// every tree, so harmless as names, and kept in the request so that a replay writes the same file):
+// "@oneline": everything on one comma-separated line; "@longmiddle": the first name alone on a line,
+// then one long line, then the last name alone on a line; otherwise three names per line.
+func tipFileText(names []string) string {
+	has := func(m string) bool {
+		for _, s := range names {
+			if s == m {
+				return true
+			}
+		}
+		return false
+	}
+	var b strings.Builder
+	switch {
+	case has("@oneline"):
+		b.WriteString(strings.Join(names, ","))
+		b.WriteByte('\n')
+	case has("@longmiddle") && len(names) >= 3:
+		b.WriteString(names[0] + "\n")
+		b.WriteString(strings.Join(names[1:len(names)-1], ","))
+		b.WriteString("\n" + names[len(names)-1] + "\n")
+	default:
+		for i, s := range names {
+			b.WriteString(s)
+			if i%3 == 2 || i == len(names)-1 {
+				b.WriteByte('\n')
+			} else {
+				b.WriteByte(',')
+			}
+		}
+	}
+	return b.String()
+}
+
+// longTipFileCase: a tip file with thousands of names (most of them absent from the tree) on one
+// line of more than 64 KiB, or with such a line between two short ones: every named tip must go.
+func longTipFileCase(c *core.Ctx, k int) {
+	g := c.G
+	o := opts(g)
+	o.Singles, o.InnerNames, o.MinTips, o.MaxTips = 0, 0, 7, 12
+	ref, _ := g.Tree(o)
+	core.NumberEdges(ref)
+	tips := ref.TipNames()
+	perm := g.R.Perm(len(tips))
+	nrm := 1 + g.Intn(len(tips)-3)
+	var rm []string
+	for _, i := range perm[:nrm] {
+		rm = append(rm, tips[i])
+	}
+	var filler []string
+	for i := 0; i < 6000+g.Intn(3000); i++ {
+		filler = append(filler, fmt.Sprintf("absent%07d", i))
+	}
+	var names []string
+	if k%2 == 0 {
+		// one line: some requested tips before, some after the filler
+		names = append(names, "@oneline")
+		names = append(names, rm[:len(rm)/2]...)
+		names = append(names, filler...)
+		names = append(names, rm[len(rm)/2:]...)
+	} else {
+		// short line, long line, short line
+		names = append(names, rm[0], "@longmiddle")
+		names = append(names, filler...)
+		if len(rm) > 2 {
+			names = append(names, rm[2:]...)
+		}
+		if len(rm) > 1 {
+			names = append(names, rm[1])
+		} else {
+			names = append(names, "absentlast")
+		}
+	}
+	runCLI(c, &cliReq{ref: ref, hasF: true, fnames: names, seed: 1})
 }
